@@ -1158,6 +1158,20 @@ impl Scenario for C15 {
             let kw = rng.s(&["binary-targets", "dpkg/target-subcommand", "dpkg/target-subcommand other/keyword"]);
             text = text.replace("Rules-Requires-Root: yes\n", &format!("Rules-Requires-Root: {kw}\n"));
         }
+        if kind == "dep3" && rng.chance(1, 4) {
+            // other fields whose names merely start with "Bug" are not bug references
+            text.push_str(rng.s(&["Bugs-Fixed: 3\n", "Bugzilla-Status: open\n", "Bugfix-Release: 1.2\n"]));
+        }
+        if kind == "buildinfo" && rng.chance(1, 5) {
+            // any blank separates the names of a word list
+            for f in ["Binary: ", "Build-Tainted-By: "] {
+                if let Some(i) = text.find(f) {
+                    let end = text[i..].find('\n').map(|e| i + e).unwrap_or(text.len());
+                    let line = text[i + f.len()..end].replace(' ', "\t");
+                    text.replace_range(i + f.len()..end, &line);
+                }
+            }
+        }
         // layout at the end of the file: a trailing comment line, no final newline
         if kind != "dep3" && !text.is_empty() {
             if rng.chance(1, 8) {
